@@ -119,6 +119,7 @@ class Cell:
         shrink=True,
         build=None,
         shards_thorough=None,
+        shards_quick=None,
         weight=1.0,
     ):
         self.name = name
@@ -132,6 +133,7 @@ class Cell:
         self.shrink = shrink
         self.build = build  # optional callable run once before the cell (may raise NotOffered)
         self.shards_thorough = shards_thorough
+        self.shards_quick = shards_quick
         self.weight = weight
 
 
@@ -445,7 +447,7 @@ def run_property(prop_id, cells, *, rule, assumptions=(), matchers=None, tier="q
         if tier == "thorough":
             shards = c.shards_thorough or max(1, min(16, n // 500))
         else:
-            shards = 1
+            shards = c.shards_quick or 1
         per = int(math.ceil(n / shards)) if n > 0 else 0
         for s in range(shards):
             seed_val = (seed * 1000003 + i * 1009 + s * 7919 + (0 if tier == "quick" else 500000)) % (2**63)
